@@ -5,7 +5,7 @@ import random
 from .. import tlc, zoo
 from ..drivers import saem
 
-POWERS = [(51, 100), (13, 20), (4, 5), (1, 1), (1, 2), (11, 10)]
+POWERS = [(51, 100), (13, 20), (4, 5), (1, 1), (1, 2), (11, 10), (0, 0)]      # (0, 0): not a number
 
 
 def configs(rnd, count, n_max=12):
@@ -28,16 +28,28 @@ def configs(rnd, count, n_max=12):
         if key in seen:
             continue
         seen.add(key)
-        out.append(dict(n=n, burn=burn, pw=pw, rnd=bool(rnd.random() < 0.7)))
-    return out
+        c = dict(n=n, burn=burn, pw=pw, rnd=bool(rnd.random() < 0.7))
+        r2 = rnd.random()
+        if r2 < 0.12:
+            c["post_load"] = rnd.randint(0, n)        # an explicit count loaded into the algorithm after its construction
+        elif r2 < 0.24 and burn[0] != "count":
+            pn = rnd.choice([x for x in range(2, n_max + 1) if x != n])
+            if not (burn[0] == "frac" and saem.frac_ambiguous(burn[1], pn)):
+                c["pilot_n"] = pn                     # the settings object served a pilot run with another n_iter before
+        out.append(c)
+    # directed ones (always present)
+    out[:0] = [dict(n=10, burn=("frac", 5), pw=(4, 5), rnd=True, post_load=3), dict(n=9, burn=("frac", 5), pw=(4, 5), rnd=True, pilot_n=4),
+               dict(n=5, burn=("count", 2), pw=(0, 0), rnd=True)]
+    return out[:count]
 
 
 def run(ctx):
     q = ctx.quick
     ctx.rule = ("TLC explores every configuration (n_iter <= 12, burn-in as count 0..13 or fraction in tenths or eighths, six step "
-                "powers incl. the refused 1/2 and 11/10) and every iteration of Saem.tla (PhaseRule, StepIndexRule, "
+                "powers incl. the refused 1/2, 11/10 and not-a-number) and every iteration of Saem.tla (PhaseRule, StepIndexRule, "
                 "BurnInLength, PowerRefusedInv, BatchUpdate, SampledOnce, Termination). Real fits are run for sampled "
-                "configurations on several model kinds; the recorder derives from the statistics actually used whether "
+                "configurations on several model kinds (some with the count loaded into the algorithm after its construction, some with a "
+                "settings object that served a pilot run with another n_iter before); the recorder derives from the statistics actually used whether "
                 "they are memoryless and which step index m explains S_k = (1-m^-p) S_(k-1) + m^-p s_k for every "
                 "component; TLC validates the event stream against SaemTrace.tla. Distinct = distinct "
                 "(model kind, n_iter, burn-in spec, power).")
